@@ -18,10 +18,10 @@
 (***************************************************************************)
 EXTENDS Integers, Sequences, FiniteSets, TLC, Json
 
-CONSTANTS Cases        \* sequence of cases [id, ps, dims, op]
+CONSTANTS Cases        \* set of cases [id, ps, dims, op]
 
-VARIABLES cid, done, res
-vars == <<cid, done, res>>
+VARIABLES cs, done, res      \* the case, whether the filter has been applied, its result
+vars == <<cs, done, res>>
 
 U == 8
 Axes == 1..3
@@ -84,14 +84,14 @@ Result(c) == LET kept == SelectSeq(c.ps, LAMBDA p : Survives(c, p))
 -----------------------------------------------------------------------------
 (* 2. One step per case *)
 
-Init == cid \in DOMAIN Cases /\ done = FALSE /\ res = [ps |-> <<>>, status |-> <<>>, amb |-> FALSE]
-Apply == ~done /\ done' = TRUE /\ res' = Result(Cases[cid]) /\ UNCHANGED cid
+Init == cs \in Cases /\ done = FALSE /\ res = [ps |-> <<>>, status |-> <<>>, amb |-> FALSE]
+Apply == ~done /\ done' = TRUE /\ res' = Result(cs) /\ UNCHANGED cs
 Spec == Init /\ [][Apply]_vars
 
 -----------------------------------------------------------------------------
 (* 3. The clauses, on the result of every case *)
 
-Case == Cases[cid]
+Case == cs
 Orig(id) == CHOOSE p \in { Case.ps[k] : k \in DOMAIN Case.ps } : p.id = id
 KeptIds == Ids(res.ps)
 
@@ -140,7 +140,7 @@ C09_WholeImpliesCenter ==
                 /\ InsideOOB([Case EXCEPT !.op.kind = "center"], Case.ps[k])
                 /\ (Case.op.box >= 2 => InsideOOB([Case EXCEPT !.op.box = Case.op.box - 2], Case.ps[k]))
 
-TypeOK == cid \in DOMAIN Cases /\ done \in BOOLEAN
+TypeOK == done \in BOOLEAN /\ (~done => res.ps = <<>>)
 
 -----------------------------------------------------------------------------
 \* emission: one record per case
